@@ -374,6 +374,24 @@ func w4() uint64 {
 	g()
 	return 7
 }
+
+func w5() uint64 {
+	var acc uint64 = 0
+	for i := uint64(0); i < 3; fmt.Println("tick") {
+		acc = acc + 2
+		i = i + 1
+	}
+	return acc
+}
+
+func w6() uint64 {
+	var acc uint64 = 0
+	for i := uint64(0); i < 2; fmt.Printf("tick %d\\n", i) {
+		acc = acc + 5
+		i = i + 1
+	}
+	return acc
+}
 """
         open(os.path.join(scratch, "logpos.go"), "w").write(lsrc)
         lfiles, lcalls = c01.witness_package(os.path.join(scratch, "logpos.go"))
@@ -437,8 +455,10 @@ func w4() uint64 {
                 qcalls.append((fn + "#0", fn, []))
                 qrun.append('\tcall("%s#0", func() string { return show(%s()) })' % (fn, fn))
         # … and panic messages (printed as a Gallina string)
-        panic_lits = ['"a\\"b"', '"odd \\x22"', '`raw "x`', '"a\\nb"', '`two\nlines`', '"tab\\there"']
-        panic_vals = ['a"b', 'odd "', 'raw "x', "a\nb", "two\nlines", "tab\there"]
+        # (a message that is not a literal — a constant expression, a named constant — is not printed: the message is "oops")
+        panic_lits = ['"a\\"b"', '"odd \\x22"', '`raw "x`', '"a\\nb"', '`two\nlines`', '"tab\\there"', '"missing closing " + "\\""', '"expected " + string(\'"\')', 'quotedConst']
+        panic_vals = ['a"b', 'odd "', 'raw "x', "a\nb", "two\nlines", "tab\there", "oops", "oops", "oops"]
+        qsrc += ['const quotedConst = "say \\"hi\\""', ""]
         for pi, lit in enumerate(panic_lits):
             qsrc += ["func qp%d(x uint64) uint64 {" % pi, "\tif x == 77 {", "\t\tpanic(%s)" % lit, "\t}", "\treturn %d" % (pi + 40), "}", "",
                      "func afterp%d() uint64 {" % pi, "\treturn %d" % (pi + 50), "}", ""]
